@@ -926,6 +926,178 @@ def drv_name_history(c, ctx, col):
                       sig="transform-name-resolution-leaks-between-formulas")
 
 
+# ---------------------------------------------------------------------------
+# multi-column input: every column is centred / scaled by ITS OWN statistics, also on new data
+
+MC_ALPHA = [0.0, 1.0, 3.0]
+MC_CFGS = [("scale", None), ("center", None), ("standardize", None)] + [("scale", (ce, sc, dd)) for ce in (True, False) for sc in (True, False) for dd in (1, 0)]
+
+
+def drv_scale_multicol(c, ctx, col):
+    n = 2 + c.upto(ctx["L"] - 2)
+    k = 2 + c.upto(ctx["K"] - 2)
+    units = [1.0, c.pick([1.0, 1e3]), 1e-3][:k]       # columns measured in different units
+    cols = []
+    for j in range(k):
+        v = [units[j] * c.pick(MC_ALPHA) for _ in range(n)]
+        if len(set(v)) < 2:
+            raise Skip()
+        cols.append(v)
+    cfg = c.pick(MC_CFGS)
+    kind = c.pick(["ndarray", "dataframe"])
+    fn = transforms()[cfg[0]]
+    kw = cfg_kwargs(cfg)
+    expr = cfg_expr(cfg, "X")
+    mat = numpy.array(cols, dtype=float).T
+
+    def wrap(m):
+        return pandas.DataFrame(m, columns=["c%d" % j for j in range(m.shape[1])]) if kind == "dataframe" else m
+    where = "%s X=%r (%d x %d %s)" % (expr, mat.tolist(), n, k, kind)
+    rep = Reporter(col, where, {"X": mat.tolist(), "transform": expr, "container": kind,
+                                "repro": "from formulaic.transforms import TRANSFORMS as T; import numpy; st = {}; T[%r](numpy.array(%r), %s_state=st)"
+                                         % (cfg[0], mat.tolist(), "".join("%s=%r, " % kv for kv in kw.items()))})
+    oracles = [ScaleOracle(v, cfg) for v in cols]
+    if oracles[0].center or oracles[0].scale:
+        col.interesting()
+    col.sample({"X": mat.tolist(), "transform": expr, "container": kind})
+    col.state((tuple(map(tuple, cols)), expr))
+    st = {}
+    try:
+        got = dense(fn(wrap(mat), **kw, _state=st))
+    except Exception as e:  # noqa
+        rep(False, "raises", "raised %s: %s" % (type(e).__name__, str(e)[:120]))
+        return
+    if not rep(got.shape == (n, k), "shape", "returned shape %r for a %d x %d input" % (got.shape, n, k)):
+        return
+    for j, orc in enumerate(oracles):
+        sub = Reporter(col, where + " column %d" % j, dict(rep.detail, column=j))
+        if not orc.check_training(sub, got[:, j], "fit, column %d" % j):
+            return
+    snap = freeze(st)
+    news = [numpy.array([[u * t for u in units] for t in ts], dtype=float) for ts in ([0.0, 1.0, 3.0, -2.0, 10.0], [5.0])]
+    news.append(numpy.array([[units[j] * (3.0 if (i + j) % 2 else -1.0) for j in range(k)] for i in range(3)], dtype=float))
+    for new in news:
+        try:
+            g2 = dense(fn(wrap(new), **kw, _state=st))
+        except Exception as e:  # noqa
+            rep(False, "raises", "follow-up %r raised %s: %s" % (new.tolist(), type(e).__name__, str(e)[:120]))
+            break
+        ok = g2.shape == new.shape and all(orc.match([float(v) for v in g2[:, j]], [float(v) for v in new[:, j]], orc.chosen) for j, orc in enumerate(oracles))
+        if not rep(ok, "followup-not-recorded-statistics", "follow-up %r with the recorded state != (new - mean_j)/sd_j of the training columns" % (new.tolist(),),
+                   got=g2.tolist(), want=[[orc.expected(float(v)) for orc, v in zip(oracles, row)] for row in new]):
+            break
+        col.count("followups")
+    rep(freeze(st) == snap, "state-mutated", "applying the transform to new data changed the recorded state")
+
+
+# ---------------------------------------------------------------------------
+# where in the factor's expression the stateful call sits: inside ordinary calls (positional, keyword, method receiver,
+# two levels deep), under operators only, inside another stateful call; and multi-column arguments of scale / center
+
+NEST_ALPHA = [-2.0, 0.0, 1.0, 3.0]
+NEST_INNER = [("center", None), ("scale", None), ("scale", (True, True, 0)), ("standardize", None)]
+# (name, formula template with @T@ = the stateful call, python function of the inner value); `f(x).method()` is only
+# valid formula syntax inside a quoted {...} Python factor
+NEST_WRAPPERS = [
+    ("I", "I(@T@ * 2)", lambda v: v * 2),
+    ("exp", "exp(@T@)", lambda v: math.exp(v)),
+    ("np.abs", "np.abs(@T@)", lambda v: abs(v)),
+    ("log-shift", "log(@T@ + 10)", lambda v: math.log(v + 10)),
+    ("two-deep", "I(exp(np.abs(@T@)))", lambda v: math.exp(abs(v))),
+    ("second-arg", "np.maximum(0.25, @T@)", lambda v: max(0.25, v)),
+    ("keyword-arg", "np.clip(a=@T@, a_min=-1, a_max=0.5)", lambda v: min(0.5, max(-1.0, v))),
+    ("method-receiver", "{@T@.clip(-1, 0.5)}", lambda v: min(0.5, max(-1.0, v))),
+    ("braces", "{@T@ + 1}", lambda v: v + 1),
+    ("in-stateful", "center(I(@T@))", None),
+]
+NEST_NEW = [[-1.0, 0.5, 4.0, 2.0], [7.0]]
+
+
+def nest_close(got, want):
+    return bool(numpy.isfinite(got)) and abs(got - want) <= 4e-9 * max(1.0, abs(want))
+
+
+def drv_nested_formula(c, ctx, col):
+    from formulaic import model_matrix
+    x = c.seq(NEST_ALPHA, ctx["L"], 2)
+    distinct = len(set(x))
+    if distinct < 2:
+        raise Skip()
+    output = c.pick(ctx["outputs"])
+    terms = []   # (formula text, number of columns, fn(train values of each column) -> (expected train, expected(new)))
+    for cfg in NEST_INNER:
+        orc = ScaleOracle(x, cfg)
+        orc.chosen = 0
+        t_txt = cfg_expr(cfg)
+        for wname, tpl, g in NEST_WRAPPERS:
+            txt = tpl.replace("@T@", t_txt)
+            if g is None:
+                # center(I(T)): the outer transform is fitted on the inner result and re-applied to new data
+                inner = [orc.expected(v) for v in x]
+                outer = ScaleOracle(inner, ("center", None))
+                outer.chosen = 0
+                terms.append((txt, [lambda v, o=orc, q=outer: q.expected(o.expected(v))]))
+            else:
+                terms.append((txt, [lambda v, o=orc, g=g: g(o.expected(v))]))
+    if distinct >= 3:
+        pr = N.PolyRef(x, 2)
+        pcol = [lambda v, k=k: pr.evaluate(v)[0][k] for k in range(2)]
+        terms.append(("np.abs(poly(x, 2))", [lambda v, f=f: abs(f(v)) for f in pcol]))
+        terms.append(("log(poly(x, 2) + 10)", [lambda v, f=f: math.log(f(v) + 10) for f in pcol]))
+        # multi-column arguments: every column gets its own statistics
+        for outer_cfg, inner_txt, inner_cols in (
+                (("scale", None), "poly(x, 2)", pcol),
+                (("standardize", None), "poly(x, 2)", pcol),
+                (("scale", (True, True, 0)), "poly(x, 2, raw=True)", [lambda v: v, lambda v: v * v]),
+                (("center", None), "poly(x, 2, raw=True)", [lambda v: v, lambda v: v * v])):
+            fs = []
+            for f in inner_cols:
+                o = ScaleOracle([f(v) for v in x], outer_cfg)
+                o.chosen = 0
+                fs.append(lambda v, f=f, o=o: o.expected(f(v)))
+            terms.append((cfg_expr(outer_cfg, inner_txt), fs))
+    formula = " + ".join(t for t, _ in terms) + " - 1"
+    ncols = sum(len(f) for _, f in terms)
+    where = "nested stateful calls x=%r output=%s" % (x, output)
+    rep = Reporter(col, where, {"x": x, "output": output, "formula": formula,
+                                "repro": "mm = model_matrix(%r, pandas.DataFrame({'x': %r}), output=%r); mm.model_spec.get_model_matrix(pandas.DataFrame({'x': %r}))"
+                                         % (formula, x, output, NEST_NEW[0])})
+    col.interesting()
+    col.sample({"x": x, "output": output, "terms": len(terms)})
+    col.state((tuple(x), output))
+    df = pandas.DataFrame({"x": numpy.array(x, dtype=float)})
+    try:
+        mm = model_matrix(formula, df, output=output)
+        a = dense(mm)
+    except Exception as e:  # noqa
+        rep(False, "raises", "model_matrix raised %s: %s" % (type(e).__name__, str(e)[:200]))
+        return
+    if not rep(a.shape == (len(x), ncols), "shape", "model matrix has shape %r, expected (%d, %d); columns %r" % (a.shape, len(x), ncols, list(mm.model_spec.column_names))):
+        return
+
+    def compare(mat, values, what):
+        off = 0
+        for txt, fs in terms:
+            for j, f in enumerate(fs):
+                want = [f(v) for v in values]
+                got = [float(t) for t in mat[:, off + j]]
+                if not all(nest_close(g_, w_) for g_, w_ in zip(got, want)):
+                    Reporter(col, where + " term=" + txt, dict(rep.detail, term=txt, column=j))(
+                        False, "nested-" + what, "%s: column %d of %s = %r, expected %r" % (what, j, txt, got, want))
+            off += len(fs)
+    compare(a, x, "fit")
+    for new in NEST_NEW:
+        try:
+            b = dense(mm.model_spec.get_model_matrix(pandas.DataFrame({"x": numpy.array(new, dtype=float)})))
+        except Exception as e:  # noqa
+            rep(False, "raises", "model_spec.get_model_matrix(%r) raised %s: %s" % (new, type(e).__name__, str(e)[:200]))
+            return
+        if not rep(b.shape == (len(new), ncols), "shape", "follow-up model matrix has shape %r" % (b.shape,)):
+            return
+        compare(b, new, "followup-not-recorded-statistics")
+        col.count("followups")
+
+
 # (offset, step) of the grids x = o + h*d: uniformly rescaled data (absolute thresholds) and a large common offset with
 # a small spread (cancellation in one-pass formulas); kappa = |o|/h ranges up to 1e9
 SCALE_GRIDS = [(0.0, 1e-8), (0.0, 1e-4), (0.0, 1e4), (0.0, 1e8), (1e3, 1e-3), (1e6, 1.0), (-1e6, 1.0), (1e6, 1e-3), (1e8, 1.0), (1.7e9, 1.0)]
@@ -1005,6 +1177,14 @@ def subchecks(tier, seed):
                                        "grids": [(0.0, 1e160), (0.0, 1e-160), (0.0, 1e6)], "D": [0.0, 1.0, 2.0, 5.0], "sig_override": "extreme-magnitude-poly"}, shard_depth=3,
             bounds={"x": "o + h*d, d every vector of length 2..4 over {0, 1, 2, 5}", "(o, h)": [[0.0, 1e160], [0.0, 1e-160], [0.0, 1e6]], "degree": "1..3",
                     "containers": "float64 ndarray; int64 ndarray for h = 1e6 (raw=True: cubes up to 1.25e20 exceed int64)"}),
+        Sub("scale-multicolumn", drv_scale_multicol, {"L": 3, "K": 2 if quick else 3}, shard_depth=4,
+            bounds={"rows": "2..3", "columns": "2" if quick else "2..3", "column_values": "unit_j * {0, 1, 3}, units (1, 1 or 1e3, 1e-3)",
+                    "configurations": [cfg_expr(c_, "X") for c_ in MC_CFGS], "containers": ["2-d ndarray", "DataFrame"],
+                    "followups": "3 new matrices with the recorded state"}),
+        Sub("nested-formula", drv_nested_formula, {"L": 3 if quick else 4, "outputs": outs}, shard_depth=3,
+            bounds={"alphabet": [fmt(a) for a in NEST_ALPHA], "length": "2..%d" % (3 if quick else 4), "inner": [cfg_expr(c_) for c_ in NEST_INNER] + ["poly(x, 2)"],
+                    "wrappers": [w[1] for w in NEST_WRAPPERS], "multi_column": ["scale(poly(x, 2))", "standardize(poly(x, 2))", "scale(poly(x, 2, raw=True), ddof=0)", "center(poly(x, 2, raw=True))"],
+                    "outputs": outs, "followup_frames": NEST_NEW}),
         Sub("name-history", drv_name_history, {"D": 2 if quick else 3}, shard_depth=3,
             bounds={"names": HIST_NAMES, "events": HIST_EVENTS, "history_length": "2" if quick else "2..3",
                     "isolation": "each history runs in a fresh interpreter", "train": HIST_TRAIN, "new": HIST_NEW}),
